@@ -38,6 +38,10 @@ Module K.
   Definition k_GPOS4 := Eval compute in s2l "GPOS4".
   Definition k_arrow := Eval compute in s2l " -> ".
   Definition k_comma := Eval compute in s2l ", ".
+  Definition k_class := Eval compute in s2l "class".
+  Definition k_inputclass := Eval compute in s2l "inputclass".
+  Definition k_backtrackclass := Eval compute in s2l "backtrackclass".
+  Definition k_lookaheadclass := Eval compute in s2l "lookaheadclass".
   Definition k_or := Eval compute in [32; 124; 124; 10; 9].      (* " ||\n\t" *)
 End K.
 Import K.
@@ -234,7 +238,20 @@ Definition cmap_lookup (F : font) (r : N) : N := cmap_lookup_l (f_cmap F) r.
 
 Record vrec : Type := mkV { v_x : Z; v_y : Z; v_dx : Z }.   (* XPlacement, YPlacement, XAdvance *)
 
+(* nested actions: (LookupListIndex, SequenceIndex) *)
+Definition actions : Type := list (N * N).
+
+(* contextual subtables (GSUB5).  classdef.Table is the list of the glyph
+   lists of class 1, 2, ... (each ascending); Rules are indexed by coverage
+   index (format 1) or by the class of the first glyph (format 2) and hold
+   (Input without its first element, Actions). *)
+Inductive ctx_sub : Type :=
+| SeqCtx1 (cov : list N) (rules : list (list (list N * actions)))
+| SeqCtx2 (cov : list N) (classes : list (list N)) (rules : list (list (list N * actions)))
+| SeqCtx3 (input : list (list N)) (acts : actions).
+
 Inductive subtable : Type :=
+| Ctx (c : ctx_sub)
 | Gsub1_1 (cov : list N) (delta : N)
 | Gsub1_2 (cov : list N) (subst : list N)
 | Gsub2_1 (cov : list N) (repl : list (list N))
@@ -693,6 +710,169 @@ Section Parser.
     subs <- gpos1_loop fuel [] ;;
     ret (mk_lookup 1 flags subs).
 
+  (* ---- nested-action lists "1@0 2@1": readNestedLookups.  An action is
+     (LookupListIndex, SequenceIndex). ---- *)
+  Fixpoint read_nested (fuel : nat) (res : list (N * N)) : P (list (N * N)) :=
+    match fuel with
+    | O => out_of_fuel
+    | S f =>
+        t <- read ;;
+        if negb (ityp_eqb (ttyp t) TInt) then (unread t ;;; ret res)
+        else
+          match atoi (tval t) with
+          | None => fatal
+          | Some x =>
+              if (x <? 0)%Z || (65536 <=? x)%Z then fatal
+              else
+                required TAt ;;;
+                t2 <- read ;;
+                if negb (ityp_eqb (ttyp t2) TInt) then fatal
+                else
+                  match atoi (tval t2) with
+                  | None => fatal
+                  | Some y =>
+                      if (y <? 0)%Z || (65536 <=? y)%Z then fatal
+                      else read_nested f (res ++ [(Z.to_N x, Z.to_N y)])
+                  end
+          end
+    end.
+
+  (* ---- GSUB5 (readSeqCtx) ---- *)
+  Definition peek : P token := t <- read ;; unread t ;;; ret t.
+
+  (* parseClassDef; the keyword has been peeked *)
+  Definition parse_class_def (fuel : nat) : P (list N * list N) :=
+    read_identifier ;;; required TColon ;;;
+    nm <- read_identifier ;;
+    required TColon ;;; optional TEqual ;;;
+    gl <- read_glyph_set fuel ;;
+    if is_nil gl then fatal else ret (nm, gl).
+
+  Definition read_class_name : P (list N) :=
+    required TColon ;;;
+    t <- read ;;
+    match ttyp t with
+    | TIdent => required TColon ;;; ret (tval t)
+    | TColon => ret []
+    | _ => fatal
+    end.
+  Fixpoint read_class_names (fuel : nat) (acc : list (list N)) : P (list (list N)) :=
+    match fuel with
+    | O => out_of_fuel
+    | S f =>
+        nxt <- peek ;;
+        if ityp_eqb (ttyp nxt) TColon then (n <- read_class_name ;; read_class_names f (acc ++ [n]))
+        else ret acc
+    end.
+
+  (* inputClassIdx: class names in the order of their definition; the class
+     of the i-th name is i+1.  (The uint16 class counter cannot wrap: classes
+     are non-empty and pairwise disjoint sets of 16-bit glyph ids.) *)
+  Fixpoint class_index_from (names : list (list N)) (i : N) (nm : list N) : option N :=
+    match names with
+    | [] => None
+    | n :: r => if list_eqb n nm then Some i else class_index_from r (i + 1) nm
+    end.
+  (* the class for a name in a rule: "" is class 0, unknown names are an error *)
+  Definition class_of (names : list (list N)) (nm : list N) : option N :=
+    if is_nil nm then Some 0 else class_index_from names 1 nm.
+  Fixpoint classes_of (names : list (list N)) (nms : list (list N)) : option (list N) :=
+    match nms with
+    | [] => Some []
+    | nm :: r => match class_of names nm, classes_of names r with
+                 | Some c, Some l => Some (c :: l)
+                 | _, _ => None
+                 end
+    end.
+
+  Definition vals_of {B} (k : N) (data : list (N * B)) : list B :=
+    map snd (filter (fun p => fst p =? k) data).
+
+  (* format 1: glyph sequences *)
+  Fixpoint ctx1_loop (fuel : nat) (data : list (N * (list N * actions))) : P (list (N * (list N * actions))) :=
+    match fuel with
+    | O => out_of_fuel
+    | S f =>
+        inp <- read_glyph_list fuel ;;
+        required TArrow ;;;
+        acts <- read_nested fuel [] ;;
+        match inp with
+        | [] => read ;;; fatal
+        | key :: rest =>
+            b <- optional TComma ;;
+            if b then (optional TEOL ;;; ctx1_loop f (data ++ [(key, (rest, acts))]))
+            else ret (data ++ [(key, (rest, acts))])
+        end
+    end.
+
+  (* format 2: class sequences *)
+  Fixpoint ctx2_loop (fuel : nat) (names : list (list N)) (data : list (N * (list N * actions)))
+    : P (list (N * (list N * actions))) :=
+    match fuel with
+    | O => out_of_fuel
+    | S f =>
+        nms <- read_class_names fuel [] ;;
+        required TArrow ;;;
+        acts <- read_nested fuel [] ;;
+        if is_nil nms then fatal
+        else match classes_of names nms with
+             | None => fatal
+             | Some [] => fatal
+             | Some (c :: rest) =>
+                 b <- optional TComma ;;
+                 if b then (optional TEOL ;;; ctx2_loop f names (data ++ [(c, (rest, acts))]))
+                 else ret (data ++ [(c, (rest, acts))])
+             end
+    end.
+
+  (* format 3: coverage sets up to "->" *)
+  Fixpoint ctx3_sets (fuel : nat) (acc : list (list N)) : P (list (list N)) :=
+    match fuel with
+    | O => out_of_fuel
+    | S f =>
+        gs <- read_glyph_set fuel ;;
+        b <- optional TArrow ;;
+        if b then ret (acc ++ [gs]) else ctx3_sets f (acc ++ [gs])
+    end.
+
+  Fixpoint seqctx_loop (fuel : nat) (names : list (list N)) (classes : list (list N)) (subs : list subtable)
+    : P (list subtable) :=
+    match fuel with
+    | O => out_of_fuel
+    | S f =>
+        nxt <- peek ;;
+        if is_ident nxt k_class then
+          d <- parse_class_def fuel ;;
+          if existsb (list_eqb (fst d)) names then fatal
+          else if existsb (fun g => existsb (N.eqb g) (concat classes)) (snd d) then fatal
+          else (optional TEOL ;;; seqctx_loop f (names ++ [fst d]) (classes ++ [snd d]) subs)
+        else
+          r <- (if ityp_eqb (ttyp nxt) TSlash then
+                  required TSlash ;;;
+                  first <- read_glyph_list fuel ;;
+                  required TSlash ;;;
+                  data <- ctx2_loop fuel names [] ;;
+                  ret (Ctx (SeqCtx2 (uniq (isort first)) classes
+                              (map (fun c => vals_of (N.of_nat c) data) (seq 0 (S (length names))))),
+                       @nil (list N), @nil (list N))
+                else if ityp_eqb (ttyp nxt) TLBr then
+                  sets <- ctx3_sets fuel [] ;;
+                  acts <- read_nested fuel [] ;;
+                  ret (Ctx (SeqCtx3 sets acts), names, classes)
+                else
+                  data <- ctx1_loop fuel [] ;;
+                  let cov := build_cov data in
+                  ret (Ctx (SeqCtx1 cov (map (fun g => vals_of g data) cov)), names, classes)) ;;
+          let '(sub, names', classes') := r in
+          b <- optional TOr ;;
+          if b then (optional TEOL ;;; seqctx_loop f names' classes' (subs ++ [sub]))
+          else ret (subs ++ [sub])
+    end.
+  Definition read_seqctx (fuel : nat) (ty : N) : P lookup :=
+    flags <- lookup_header fuel ;;
+    subs <- seqctx_loop fuel [] [] [] ;;
+    ret (mk_lookup ty flags subs).
+
   (* ---- parse() ---- *)
   Definition unmodelled {A} : P A := fun _ => PUnmodelled.
   Fixpoint parse_loop (fuel : nat) (acc : list lookup) : P (list lookup) :=
@@ -709,7 +889,7 @@ Section Parser.
             else if list_eqb (tval t) k_GSUB2 then (l <- read_gsub2 fuel ;; parse_loop f (acc ++ [l]))
             else if list_eqb (tval t) k_GSUB3 then (l <- read_gsub3 fuel ;; parse_loop f (acc ++ [l]))
             else if list_eqb (tval t) k_GSUB4 then (l <- read_gsub4 fuel ;; parse_loop f (acc ++ [l]))
-            else if list_eqb (tval t) k_GSUB5 then unmodelled
+            else if list_eqb (tval t) k_GSUB5 then (l <- read_seqctx fuel 5 ;; parse_loop f (acc ++ [l]))
             else if list_eqb (tval t) k_GSUB6 then unmodelled
             else if list_eqb (tval t) k_GPOS1 then (l <- read_gpos1 fuel ;; parse_loop f (acc ++ [l]))
             else if list_eqb (tval t) k_GPOS2 then unmodelled
@@ -739,6 +919,14 @@ Definition M_parse (U : uclass) (F : font) (text : list N) : presult (list looku
 
 (* ------------------------------------------------------------------ *)
 (* M_explain                                                           *)
+
+(* explainNested *)
+Fixpoint M_explain_nested (acts : list (N * N)) : list N :=
+  match acts with
+  | [] => []
+  | [(li, si)] => digits li ++ 64 :: digits si
+  | (li, si) :: r => digits li ++ 64 :: digits si ++ 32 :: M_explain_nested r
+  end.
 
 Section Explain.
   Variable U : uclass.
@@ -864,8 +1052,61 @@ Section Explain.
         if is_nil parts then [95] else join_sp parts
     end.
 
+  (* writeClassList *)
+  Definition write_class_list (cs : list N) : list N :=
+    concat (map (fun c => if c =? 0 then [32; 58; 58] else [32; 58; 99] ++ digits c ++ [58]) cs).
+
+  (* defineClasses *)
+  Fixpoint define_classes (kw : list N) (classes : list (list N)) (i : N) : list N :=
+    match classes with
+    | [] => []
+    | gl :: r => 32 :: kw ++ [32; 58; 99] ++ digits i ++ [58; 32; 61; 32] ++ write_glyph_set gl ++ [10; 9]
+                   ++ define_classes kw r (i + 1)
+    end.
+
+  (* explainSeqContext1: rules in coverage order *)
+  Fixpoint explain_ctx1 (mm : list (N * (list N * actions))) (first : bool) : list N :=
+    match mm with
+    | [] => []
+    | (g, (inp, acts)) :: r =>
+        (if first then [32] else k_comma) ++ write_glyph_list (g :: inp) ++ k_arrow ++ M_explain_nested acts
+          ++ explain_ctx1 r false
+    end.
+
+  (* the rules of explainSeqContext2, by class of the first glyph *)
+  Fixpoint explain_ctx2 (mm : list (N * (list N * actions))) (first : bool) : list N :=
+    match mm with
+    | [] => []
+    | (c, (inp, acts)) :: r =>
+        (if first then [] else [44]) ++ write_class_list (c :: inp) ++ k_arrow ++ M_explain_nested acts
+          ++ explain_ctx2 r false
+    end.
+
+  Fixpoint index_from {B} (i : N) (l : list B) : list (N * B) :=
+    match l with [] => [] | x :: r => (i, x) :: index_from (i + 1) r end.
+  Definition flat_rules {B} (keyed : list (N * list B)) : list (N * B) :=
+    concat (map (fun p => map (fun x => (fst p, x)) (snd p)) keyed).
+
+  (* explainSeqContext3 *)
+  Fixpoint join_sets (sets : list (list N)) : list N :=
+    match sets with
+    | [] => []
+    | [x] => write_glyph_set x
+    | x :: r => write_glyph_set x ++ 32 :: join_sets r
+    end.
+
+  Definition explain_ctx (c : ctx_sub) : list N :=
+    match c with
+    | SeqCtx1 cov rules => explain_ctx1 (flat_rules (combine cov rules)) true
+    | SeqCtx2 cov classes rules =>
+        define_classes k_class classes 1 ++ [47] ++ write_glyph_list cov ++ [47]
+          ++ explain_ctx2 (flat_rules (index_from 0 rules)) true
+    | SeqCtx3 input acts => join_sets input ++ k_arrow ++ M_explain_nested acts
+    end.
+
   Definition explain_subtable (s : subtable) : list N :=
     match s with
+    | Ctx c => explain_ctx c
     | Gsub1_1 cov delta =>
         let mm := stable_sort (map (fun k => (k, (k + delta) mod 65536)) cov) in
         explain_seq1 (length mm) mm [32]
@@ -906,40 +1147,6 @@ Section Explain.
 End Explain.
 
 (* ------------------------------------------------------------------ *)
-(* Nested-action lists "1@0 2@1" (readNestedLookups / explainNested).  They
-   occur inside GSUB5/GSUB6 lookups only, whose grammar M_parse does not
-   cover; the pair of functions is modelled on its own.
-   An action is (LookupListIndex, SequenceIndex). *)
-
-Section Nested.
-  Variable endl : N.
-
-  Fixpoint read_nested (fuel : nat) (res : list (N * N)) : P (list (N * N)) :=
-    match fuel with
-    | O => out_of_fuel
-    | S f =>
-        t <- read endl ;;
-        if negb (ityp_eqb (ttyp t) TInt) then (unread endl t ;;; ret res)
-        else
-          match atoi (tval t) with
-          | None => fatal endl
-          | Some x =>
-              if (x <? 0)%Z || (65536 <=? x)%Z then fatal endl
-              else
-                required endl TAt ;;;
-                t2 <- read endl ;;
-                if negb (ityp_eqb (ttyp t2) TInt) then fatal endl
-                else
-                  match atoi (tval t2) with
-                  | None => fatal endl
-                  | Some y =>
-                      if (y <? 0)%Z || (65536 <=? y)%Z then fatal endl
-                      else read_nested f (res ++ [(Z.to_N x, Z.to_N y)])
-                  end
-          end
-    end.
-End Nested.
-
 (* readNestedLookups on the items of a text *)
 Definition M_parse_nested (U : uclass) (text : list N) : presult (list (N * N)) :=
   let ts := M_lex U text in
@@ -951,10 +1158,3 @@ Definition M_parse_nested (U : uclass) (text : list N) : presult (list (N * N)) 
   | PUnmodelled => PUnmodelled
   end.
 
-(* explainNested *)
-Fixpoint M_explain_nested (acts : list (N * N)) : list N :=
-  match acts with
-  | [] => []
-  | [(li, si)] => digits li ++ 64 :: digits si
-  | (li, si) :: r => digits li ++ 64 :: digits si ++ 32 :: M_explain_nested r
-  end.
